@@ -579,4 +579,47 @@ theorem shared_array_carries_moderators_over :
     let b := parseShared tbl a []                                                                          -- board B: no moderators
     b = [3, 4, -1, -1] ∧ parseBMList tbl [] = [-1, -1, -1, -1] := by decide +kernel
 
+/-! ### listing results are values
+
+A caller still holds the list a listing returned (the bbs conversion loop, a request served concurrently) while the next
+listing runs: what it holds must stay what its own call produced. -/
+
+/-- ptt.showBoardList makes the list it returns and hands it to nothing that outlives the call (read from the source) -/
+theorem showBoardList_fresh : Gen.ReadEntryPoints.showBoardListFresh = true := by decide
+
+theorem runListings_fresh {α} (h : Heap α) (rs : List (List α)) :
+    runListings true h rs = ({ cells := h.cells ++ rs }, List.range' h.cells.length rs.length) := by
+  induction rs generalizing h with
+  | nil => simp [runListings]
+  | cons r rs ih =>
+    simp only [runListings, handOut, ↓reduceIte]
+    rw [ih]
+    simp [List.range'_succ]
+
+/-- for EVERY history of listing calls and every heap before it: each caller's handle still shows exactly what its own
+call produced, and whatever was held before the history is untouched. -/
+theorem held_listings_stable {α} (h : Heap α) (rs : List (List α)) :
+    let out := runListings true h rs
+    out.2.length = rs.length ∧
+    (∀ i (hi : i < rs.length), deref out.1 (out.2.getD i 0) = rs[i]) ∧
+    (∀ k, k < h.cells.length → deref out.1 k = deref h k) := by
+  rw [runListings_fresh]
+  refine ⟨by simp, ?_, ?_⟩
+  · intro i hi
+    have hk : (List.range' h.cells.length rs.length).getD i 0 = h.cells.length + i := by
+      rw [List.getD_eq_getElem?_getD, List.getElem?_range' (by exact hi)]; simp
+    simp only [hk, deref, List.getD_eq_getElem?_getD]
+    rw [List.getElem?_append_right (by omega)]
+    simp [hi]
+  · intro k hk
+    simp only [deref, List.getD_eq_getElem?_getD]
+    rw [List.getElem?_append_left hk]
+
+/-- the broken rule, for the record: with ONE pooled list handed out again and again, the list a plain caller holds
+(`[3]`: the public board) shows the site administrator's listing (`[2, 3]`: the hidden board too) after the next call -/
+theorem pooled_list_is_overwritten :
+    let out := runListings false ({ cells := [] } : Heap Nat) [[3], [2, 3]]
+    deref out.1 (out.2.getD 0 0) = [2, 3] ∧
+    deref (runListings true ({ cells := [] } : Heap Nat) [[3], [2, 3]]).1 0 = [3] := by decide
+
 end PttVerif.C07.Props
